@@ -8,6 +8,8 @@ pub struct Plan {
     pub cases: Vec<Case>,
     pub exhaustive: bool,
     pub rule: String,
+    /// distinct cases are counted per (line, outcome) rather than per trace
+    pub per_line: bool,
 }
 
 fn h(s: &str) -> String {
@@ -80,6 +82,7 @@ pub fn plan_c15(tier: &str, seed: u64) -> Plan {
         lines.push(format!("parse x{}", h(&f)));
     }
     Plan {
+        per_line: true,
         cases: vec![Case { expect: vec![], name: format!("c15-exhaustive-len{n}+formulas"), lines }],
         exhaustive: true,
         rule: format!("every string over {{A,é,:,&,|,(,),space,*,U+00A0}} of length <= {n} (exhaustive), the documented examples and targeted non-ASCII shapes, and {nf} random formulas (<=16 atoms, random spacing, redundant parentheses, juxtaposition); a case is one string; parse result (AST and DNF, or error) of the implementation is compared with the Lean model; distinct = distinct (input, outcome) pairs"),
@@ -193,6 +196,7 @@ pub fn plan_c01(tier: &str, seed: u64, kem_pairs: usize) -> Plan {
         cases.push(Case { expect: vec![], name: format!("c01-shape{si}"), lines });
     }
     Plan {
+        per_line: false,
         cases,
         exhaustive: true,
         rule: format!("every structure shape with <= {max_dims} dimensions (anarchy or hierarchy) of 1..3 attributes (random hints and hierarchy insertion orders); on each, every policy with one clause (at most one attribute per dimension) and '*', and all (or a sample of) two-clause policies: rights of user keys and of encapsulations compared as sets between implementation and model; plus sampled (user policy, encryption policy) pairs where the real keygen/encaps/decaps verdict is compared with the name-level cover relation of the Lean spec; distinct = distinct canonical traces per structure"),
@@ -279,6 +283,7 @@ pub fn plan_history(prop: &str, tier: &str, seed: u64, n: usize) -> Plan {
         cases.push(Case { expect: vec![], name: format!("{prop}-hist{i}-seed{s}"), lines: HistGen::history(s, p.clone()) });
     }
     Plan {
+        per_line: false,
         cases,
         exhaustive: false,
         rule: format!("{n} random operation histories ({} ops after a random base structure of <= {} dimensions x <= {} attributes; profile {:?}); a case is one history executed on the real API and on the Lean model with canonical outputs compared line by line; distinct = distinct canonical implementation traces (hash of ops and normalised outputs)", p.n_ops, p.max_dims, p.max_attrs, prop),
@@ -422,8 +427,104 @@ pub fn plan_c12(tier: &str, seed: u64) -> Plan {
         }
     }
     Plan {
+        per_line: true,
         cases,
         exhaustive: false,
         rule: format!("PKE: plaintext lengths 0..70{} and around 4 KiB / 8 KiB, authorised and unauthorised keys, truncation at every length (short plaintexts) or sampled lengths incl. the nonce boundary, bit flips, ciphertext spliced under another encapsulation; header: metadata absent / empty / 1..40 bytes x authentication data absent / empty / short / 33 bytes, decrypted with every authentication-data variant plus a different one, truncation of the metadata ciphertext at every length, bit flips, serialisation round trip. Every check line is compared with the Lean model AND with what the specification demands; distinct = distinct canonical traces", if thorough { "..300" } else { "" }),
+    }
+}
+
+/// C07: every byte x {bit 0, bit 7} of serialised encapsulations (classic 1- and 3-target,
+/// hybridised 1- and 2-target), every truncation (sampled in quick), every structural operator;
+/// specification: decapsulation never returns a secret.
+pub fn plan_c07(tier: &str, seed: u64) -> Plan {
+    use crate::wire::sz;
+    let thorough = tier == "thorough";
+    let mut rng = SplitMix64::new(seed ^ 0xC07);
+    let ex = |tags: &[&str]| Expect { out: "ok 0 || err *".into(), oracle: "tampered-encapsulation-opens".into(), tags: tags.iter().map(|s| s.to_string()).collect() };
+    // (name, policy, #targets, hybrid)
+    let shapes: [(&str, &str, usize, bool); 4] = [
+        ("classic1", "D::A && S::L", 1, false),
+        ("classic3", "D::A && S::L || D::A && S::T || D::A", 3, false),
+        ("hybrid1", "D::A && S::T", 1, true),
+        ("hybrid2", "D::A && S::T || S::T && D::B", 2, true),
+    ];
+    let mut cases = vec![];
+    for (name, pol, n, hyb) in shapes {
+        let total = 16 + 1 + 2 * sz::PK + 1 + 1 + n * (32 + if hyb { sz::ENC } else { 0 });
+        // the mutant list
+        let mut muts: Vec<String> = vec![];
+        let step = 1;
+        let mut b = 0;
+        while b < total {
+            for bit in (if thorough { vec![0usize, 1, 2, 3, 4, 5, 6, 7] } else { vec![0usize, 7] }) {
+                muts.push(format!("flip {b} {bit}"));
+            }
+            b += if b < 120 { 1 } else { step };
+        }
+        if !thorough && step > 1 {
+            for _ in 0..200 {
+                muts.push(format!("flip {} {}", rng.below(total), rng.below(8)));
+            }
+        }
+        for cut in 0..total {
+            if thorough || total < 400 || cut < 120 || cut % 23 == 0 || cut + 40 > total {
+                muts.push(format!("trunc {cut}"));
+            }
+        }
+        muts.push("swap_trap 0 1".into());
+        muts.push("drop_trap 0".into());
+        muts.push("drop_trap 1".into());
+        muts.push("dup_trap 0".into());
+        muts.push("dup_trap 1".into());
+        for i in 0..n {
+            muts.push(format!("drop_f {i}"));
+            muts.push(format!("dup_f {i}"));
+            muts.push(format!("splice_f E2 {i}"));
+            for j in (i + 1)..n {
+                muts.push(format!("swap_f {i} {j}"));
+                muts.push(format!("swap_ff {i} {j}"));
+                if hyb {
+                    muts.push(format!("swap_e {i} {j}"));
+                }
+            }
+        }
+        muts.push("splice_c E2".into());
+        muts.push("splice_tag E2".into());
+        muts.push("splice_encs E2".into());
+        if hyb {
+            muts.push("reflavour".into());
+        }
+        // U0 authorised for every clause, U1 authorised for none of the first shapes' clauses
+        let mut prelude = c12_prelude();
+        prelude.truncate(9);
+        prelude.push(format!("keygen M0 U0 t:{}", h("D::A && S::T || D::B && S::T")));
+        prelude.push(format!("keygen M0 U1 t:{}", h("D::B && S::L")));
+        prelude.push(format!("encaps K1 E0 t:{}", h(pol)));
+        prelude.push("decaps U0 E0".into());
+        // a second honest encapsulation of the same shape to splice from
+        prelude.push(format!("encaps K1 E2 t:{}", h(pol)));
+        let mut k = 0;
+        for chunk in muts.chunks(50) {
+            let mut c = Case::new(format!("c07-{name}-chunk{k}"), prelude.clone());
+            c.expect.push((prelude.len() - 2, Expect { out: "ok 1".into(), oracle: "honest-encapsulation-opens".into(), tags: vec![] }));
+            for (mi, m) in chunk.iter().enumerate() {
+                c.lines.push(format!("tamper_enc E0 E1 {m}"));
+                c.lines.push("decaps U0 E1".into());
+                c.expect.push((c.lines.len() - 1, ex(&[m.split(' ').next().unwrap()])));
+                if !m.starts_with("flip") || mi % 8 == 0 {
+                    c.lines.push("decaps U1 E1".into());
+                    c.expect.push((c.lines.len() - 1, ex(&[m.split(' ').next().unwrap(), "unauthorized-key"])));
+                }
+            }
+            cases.push(c);
+            k += 1;
+        }
+    }
+    Plan {
+        per_line: true,
+        cases,
+        exhaustive: thorough,
+        rule: "serialised encapsulations of four shapes (classic 1 / 3 targets incl. mixed flavours, hybridised 1 / 2 targets): every byte position (all in thorough; the first 120 and every 7th plus 200 random ones in quick for the long hybridised forms) x {bit 0, bit 7}, truncations, and every structural operator (swap / drop / duplicate traps, swap / drop / duplicate components, swap only E or only F, splice a component / the traps / the tag / all components of a second honest encapsulation, flavour flip with re-chunking); each mutant is deserialised and decapsulated by the real code with an authorised and an unauthorised key; the specification demands no secret ever; distinct = distinct (mutant, outcome) lines".into(),
     }
 }
